@@ -2,8 +2,10 @@
 
 The real `cameleon::Camera<FakeCtrl, FakeStrm, DefaultGenApiCtxt>` (rust/h_camera: recording fakes, every
 DeviceControl / PayloadStream operation can be made to fail) and the Gallina model (model/Camera.v,
-`cam_case true`) are run on the same sessions x failure plans; per-call result class, failed operation,
-number of operations attempted, effect trace, value read and the state after every call are compared.
+`cam_case true`) are run on the same sessions x failure plans (a failure = operation index + fault CLASS:
+Io, Timeout, Disconnected, Busy, NotOpened, InvalidData, ...); per-call result class (which carries the
+fault class), failed operation, the device log (every operation attempted, in order), effect trace,
+value read and the state after every call are compared.
 The predicate below is the property itself, evaluated on the implementation's output only.
 """
 import json
@@ -27,7 +29,11 @@ F_LOOP, F_CTXT, F_C_TL, F_C_START, F_C_STOP, F_COPEN, F_SOPEN, F_ENABLED, F_LOCK
     1, 2, 4, 8, 16, 32, 64, 128, 256, 512
 
 
+NCLASS = 8      # fault classes of rust/h_camera (0 Io 1 Timeout 2 Disconnected 3 Busy 4 NotOpened 5 InvalidData ...)
+
+
 def mk(calls, plan=()):
+    """plan: (call index, operation index, fault class) triples"""
     flat = [x for p in plan for x in p]
     toks = [len(calls)] + list(calls) + [len(plan)] + flat
     return Case("cam", toks, {"calls": list(calls), "plan": [tuple(p) for p in plan]},
@@ -39,8 +45,8 @@ def case_from_line(line):
     n = t[0]
     calls = t[1:1 + n]
     m = t[1 + n]
-    flat = t[2 + n:2 + n + 2 * m]
-    return mk(calls, [(flat[2 * i], flat[2 * i + 1]) for i in range(m)])
+    flat = t[2 + n:2 + n + 3 * m]
+    return mk(calls, [tuple(flat[3 * i:3 * i + 3]) for i in range(m)])
 
 
 def parse(out, ncalls):
@@ -51,8 +57,14 @@ def parse(out, ncalls):
     for _ in range(ncalls):
         if pos + 4 > len(out):
             return None
-        r, failed, nops, k = out[pos:pos + 4]
-        pos += 4
+        r, failed, nops = out[pos:pos + 3]
+        pos += 3
+        atts = out[pos:pos + nops]
+        pos += nops
+        if pos >= len(out) or len(atts) != nops:
+            return None
+        k = out[pos]
+        pos += 1
         effs = []
         for _ in range(k):
             if pos >= len(out):
@@ -71,7 +83,7 @@ def parse(out, ncalls):
             return None
         val, flags = out[pos:pos + 2]
         pos += 2
-        res.append({"res": r, "failed": failed, "nops": nops, "effs": effs, "val": val, "flags": flags})
+        res.append({"res": r, "failed": failed, "nops": nops, "atts": atts, "effs": effs, "val": val, "flags": flags})
     return res if pos == len(out) else None
 
 
@@ -90,14 +102,14 @@ def predicate(c, out):
         rs = parse_e2e(out, len(calls))
         if rs is None:
             return "output does not have the expected shape"
-        return judge(calls, plan, rs, F_LOOP | F_ENABLED | F_LOCKED)
+        return judge_e2e(c, rs)
     rs = parse(out, len(calls))
     if rs is None:
         return "output does not have the expected shape"
     return judge(calls, plan, rs, ALL_BITS)
 
 
-def judge(calls, plan, rs, bits):
+def judge(calls, plan, rs, bits, faulty_call=None):
     """bits: the state bits the harness reports (the end-to-end harness sees the device memory and
     the streaming flag only; there nops is None: no failure is planned)."""
     copen = sopen = enabled = locked = acq = alive = False
@@ -188,26 +200,36 @@ def judge(calls, plan, rs, bits):
                 return where + ": device state '%s' differs from the effects that happened" % name
         ctxt = bool(f & F_CTXT)
         # --- failure: error returned, later steps not performed
-        fails = sorted(j for (ci, j) in plan if ci == i)
-        reached = [j for j in fails if r["nops"] is not None and j < r["nops"]]
+        fails = sorted((j, cls) for (ci, j, cls) in plan if ci == i)
+        reached = [(j, cls) for (j, cls) in fails if r["nops"] is not None and j < r["nops"]]
+        effcodes = [e[0] for e in r["effs"]]
         if reached:
             any_failure = True
-            j = reached[0]
+            j, cls = reached[0]
             if r["res"] in (0, 2):
-                return where + ": operation %d failed but the call did not return an error" % j
+                return where + ": operation %d failed (fault class %d) but the call did not return an error" % (j, cls)
             if r["nops"] != j + 1:
-                return where + ": operations were attempted after the failed operation %d" % j
+                return where + ": operations were attempted after the failed operation %d (fault class %d): device log %r" % (j, cls, r["atts"])
             if len(r["effs"]) != j:
                 return where + ": effects do not stop at the failed operation %d" % j
             fo = r["failed"]
-            want = 10 if fo in CTRL_OPS else 11 if fo in STRM_OPS else 15 if fo in REG_OPS else None
+            want = 100 + cls if fo in CTRL_OPS else 200 + cls if fo in STRM_OPS else 300 + cls if fo in REG_OPS else None
             if want is None or r["res"] != want:
-                return where + ": error class %d is not the error of the failed operation (code %d)" % (r["res"], fo)
+                return where + ": error %d is not the error of the failed operation (code %d, fault class %d)" % (r["res"], fo, cls)
+            if r["atts"] != effcodes + [fo]:
+                return where + ": device log %r is not the successful accesses followed by the one failed attempt" % (r["atts"],)
         elif r["failed"] != 0:
             return where + ": an operation failed that the plan does not fail"
+        elif r["atts"] is not None and r["atts"] != effcodes and not (E_LSTOP in r["atts"] and E_LSTOP not in effcodes):
+            return where + ": device log %r differs from the accesses that took effect %r" % (r["atts"], effcodes)
+        # --- every device access of a call is attempted at most once
+        if r["atts"] is not None and len(set(r["atts"])) != len(r["atts"]):
+            return where + ": an access was attempted twice: device log %r" % (r["atts"],)
         # --- params access returns the device's TLParamsLocked
         if call == PARAMS and r["res"] == 0 and r["val"] != int(locked):
             return where + ": TLParamsLocked read as %d, the device holds %d" % (r["val"], int(locked))
+        if i == faulty_call:
+            any_failure = True      # end-to-end: a transaction of this call was disturbed
         # --- clean close
         if call == CLOSE and good and not any_failure:
             if r["res"] != 0:
@@ -219,12 +241,11 @@ def judge(calls, plan, rs, bits):
 
 
 def parse_e2e(out, ncalls):
-    """output of rust/h_u3v `cam16` -> the same records; LoopStart / LoopStop are not device-memory
-    writes: they are inferred from the streaming flag (a loop that appears during a call is put after
-    the call's writes, one that disappears before them — their position inside the call is not observed)."""
+    """output of rust/h_u3v `cam16` -> records {res, effs (protocol-relevant device-memory writes), wire (every
+    command sent during the call), val, flags}"""
     if not out or out[0] != 0:
         return None
-    pos, res, flag = 1, [], 0
+    pos, res = 1, []
     for _ in range(ncalls):
         if pos + 2 > len(out):
             return None
@@ -232,17 +253,73 @@ def parse_e2e(out, ncalls):
         pos += 2
         effs = [(x,) for x in out[pos:pos + k]]
         pos += k
-        if pos + 2 > len(out):
+        if pos >= len(out):
+            return None
+        w = out[pos]
+        wire = out[pos + 1:pos + 1 + w]
+        pos += 1 + w
+        if pos + 2 > len(out) or len(wire) != w:
             return None
         val, flags = out[pos:pos + 2]
         pos += 2
-        if flags & F_LOOP and not flag:
-            effs = effs + [(E_LSTART,)]
-        if flag and not flags & F_LOOP:
-            effs = [(E_LSTOP,)] + effs
-        flag = flags & F_LOOP
-        res.append({"res": r, "failed": 0, "nops": None, "effs": effs, "val": val, "flags": flags})
+        res.append({"res": r, "failed": 0, "nops": None, "atts": None, "effs": effs, "wire": wire, "val": val,
+                    "flags": flags})
     return res if pos == len(out) else None
+
+
+def with_loop_events(rs):
+    """LoopStart / LoopStop are not device-memory writes: they are inferred from the streaming flag (a loop that
+    appears during a call is put after the call's writes, one that disappears before them — their position
+    inside the call is not observed end-to-end)."""
+    out, flag = [], 0
+    for r in rs:
+        effs = list(r["effs"])
+        if r["flags"] & F_LOOP and not flag:
+            effs = effs + [(E_LSTART,)]
+        if flag and not r["flags"] & F_LOOP:
+            effs = [(E_LSTOP,)] + effs
+        flag = r["flags"] & F_LOOP
+        out.append(dict(r, effs=effs))
+    return out
+
+
+KIND_CLASS = {0: 1, 1: 1, 2: 1, 3: 0, 4: 2, 5: 3}     # fault kind of rust/h_u3v cam16 -> ControlError class
+GENAPI_WIRE = {E_TL1, E_TL0, E_ASTART, E_ASTOP, E_READ}  # transactions issued through a GenApi node
+
+
+def judge_e2e(c, rs):
+    """End-to-end sessions.  Failure-free: the protocol over the device-memory writes.  With a disturbed
+    transaction (call ci, transaction ti, kind) at a GenApi-driven access: the call fails with the class of
+    the disturbance (Timeout for a lost command / lost acknowledge), the wire log shows ONE command for that
+    access, nothing was sent after it (no later step), no loop was started by the failing call.  After a
+    failure the real ControlHandle may recover on its own (enable_streaming first disables a stream left
+    enabled), so the protocol replay is applied up to the failing call only."""
+    calls = c.meta["calls"]
+    faults = c.meta.get("faults") or []
+    bits = F_LOOP | F_ENABLED | F_LOCKED
+    if not faults:
+        return judge(calls, [], with_loop_events(rs), bits)
+    ci, ti, kind = faults[0]
+    access = c.meta["access"]
+    r = rs[ci]
+    where = "call %d (%d), transaction %d disturbed (kind %d)" % (ci, calls[ci], ti, kind)
+    wire = r["wire"]
+    if len(wire) <= ti:
+        return where + ": the call sent only %d commands (the failure-free run sent more)" % len(wire)
+    cls = KIND_CLASS[kind]
+    if r["res"] != 300 + cls:
+        return where + ": the call returned %d, not the error of the disturbed access (%d)" % (r["res"], 300 + cls)
+    if kind == 0:
+        if wire[ti] != 39 or access in wire:
+            return where + ": wire log %r: the access was sent again after the send failed" % (wire,)
+    elif wire[ti] != access or wire.count(access) != 1:
+        return where + ": wire log %r does not show exactly one command for the access %d" % (wire, access)
+    if len(wire) != ti + 1:
+        return where + ": commands were sent after the failed access (later steps performed): wire log %r" % (wire,)
+    before = rs[ci - 1]["flags"] & F_LOOP if ci else 0
+    if 10 <= calls[ci] <= 19 and (r["flags"] & F_LOOP) != before:
+        return where + ": the failing start left a loop running"
+    return judge(calls[:ci + 1], [], with_loop_events(rs[:ci + 1]), bits, faulty_call=ci)
 
 
 E2E_SIRM, E2E_REGS, E2E_TAB, E2E_XML = 0x20000, 0x40000, 0x30000, 0x50000
@@ -278,21 +355,35 @@ def e2e_world_tokens():
     return list(w.toks)
 
 
-def mk_e2e(wt, calls):
-    toks = wt + [40, E2E_SIRM, E2E_REGS, E2E_REGS + 4, E2E_REGS + 8, len(calls)] + list(calls)
-    return Case("cam16", toks, {"calls": list(calls), "plan": []}, term="cam_case true %s []" % zlist(calls))
+def mk_e2e(wt, calls, faults=(), access=None, mplan=()):
+    """faults: (call index, transaction index, kind) for rust/h_u3v; mplan: the same failure for the model
+    (call index, operation index, fault class); access: wire code of the disturbed access"""
+    flat = [x for f in faults for x in f]
+    toks = wt + [40, E2E_SIRM, E2E_REGS, E2E_REGS + 4, E2E_REGS + 8, len(calls)] + list(calls) + [len(faults)] + flat
+    return Case("cam16", toks, {"calls": list(calls), "plan": [], "faults": [tuple(f) for f in faults], "access": access},
+                term="cam_case true %s %s" % (zlist(calls), zlist([x for p in mplan for x in p])))
 
 
 E2E_EFFECTS = {E_ENABLE, E_TL1, E_TL0, E_ASTART, E_ASTOP, E_DISABLE}
+E2E_FLAGS = F_LOOP | F_CTXT | F_COPEN | F_ENABLED | F_LOCKED
+E2E_HOST_FLAGS = F_LOOP | F_CTXT | F_COPEN
 
 
-def e2e_view(model_out, ncalls):
-    """the part of the model's output the end-to-end harness can observe, in its format"""
-    rs = parse(model_out, ncalls)
+def e2e_cmp(rs, fault, from_model):
+    """What is compared between the end-to-end run and the model.  Failure-free: result, protocol-relevant
+    device writes, value read, streaming flag / context / opened / SI_CONTROL / TLParamsLocked.  With a fault in
+    call ci: the calls before it in full; the failing call in full when the command never reached the device
+    (kind 0: a failed operation has no effect, as in the model), otherwise result and host-side flags only (the
+    device executed a write whose acknowledge was lost); later calls: result and host-side flags only (device
+    memory and ControlHandle's own recovery are not modelled)."""
     out = [0]
-    for r in rs:
-        effs = [e[0] for e in r["effs"] if e[0] in E2E_EFFECTS]
-        out += [r["res"], len(effs)] + effs + [r["val"], r["flags"] & (F_LOOP | F_CTXT | F_COPEN | F_ENABLED | F_LOCKED)]
+    for i, r in enumerate(rs):
+        effs = [e[0] for e in r["effs"] if not from_model or e[0] in E2E_EFFECTS]
+        full = fault is None or i < fault[0] or (i == fault[0] and fault[2] == 0)
+        if full:
+            out += [r["res"], len(effs)] + effs + [r["val"], r["flags"] & E2E_FLAGS]
+        else:
+            out += [r["res"], -1, r["flags"] & E2E_HOST_FLAGS]
     return out
 
 
@@ -331,7 +422,7 @@ def e2e_sessions(depth):
 def nontrivial(c, out):
     if c.kind == "cam16":
         rs = parse_e2e(out, len(c.meta["calls"])) if out else None
-        return bool(rs) and any((E_LSTART,) in r["effs"] for r in rs)
+        return bool(rs) and any(r["flags"] & F_LOOP for r in rs)
     rs = parse(out, len(c.meta["calls"])) if out else None
     return bool(rs) and any((E_LSTART,) in r["effs"] for r in rs)
 
@@ -371,36 +462,82 @@ def extra_cases(ck):
         if rng.chance(2, 3):
             calls = [OPEN, LOAD] + calls
         k = rng.choice([0, 1, 1, 2, 2, 3, 5])
-        plan = sorted({(rng.below(len(calls)), rng.below(4)) for _ in range(k)})
-        cases.append(mk(calls, plan))
+        pts = sorted({(rng.below(len(calls)), rng.below(4)) for _ in range(k)})
+        cases.append(mk(calls, [(a, b, rng.below(NCLASS)) for a, b in pts]))
     return cases
+
+
+def e2e_fault_cases(wt, triples):
+    """From failure-free end-to-end runs: every transaction of every call that is a GenApi-driven access
+    (TLParamsLocked / AcquisitionStart / AcquisitionStop write, TLParamsLocked read) x 6 kinds of disturbance.
+    The model gets the same failure as (call, index of that access in the model's own device log, class)."""
+    out = []
+    for c, o, m in triples:
+        calls = c.meta["calls"]
+        rs = parse_e2e(o, len(calls)) if o else None
+        ms = parse(m, len(calls)) if m else None
+        if rs is None or ms is None:
+            continue
+        for ci, (r, mr) in enumerate(zip(rs, ms)):
+            for ti, code in enumerate(r["wire"]):
+                if code in GENAPI_WIRE and code in mr["atts"]:
+                    for kind in sorted(KIND_CLASS):
+                        out.append(mk_e2e(wt, calls, [(ci, ti, kind)], access=code,
+                                          mplan=[(ci, mr["atts"].index(code), KIND_CLASS[kind])]))
+    return out
+
+
+def e2e_compare(ck, cases, impl, model, family):
+    """predicate on the full end-to-end output; correspondence on the comparable part (e2e_cmp)"""
+    ck.compare(cases, impl, None, predicate, nontrivial, family=family)
+    iv, mv = [], []
+    for c, o, m in zip(cases, impl, model):
+        n = len(c.meta["calls"])
+        fault = (c.meta.get("faults") or [None])[0]
+        rs = parse_e2e(o, n) if o else None
+        ms = parse(m, n) if m else None
+        iv.append(o if rs is None else e2e_cmp(rs, fault, False))
+        mv.append(None if ms is None else e2e_cmp(ms, fault, True))
+    n0 = ck.evaluations
+    ck.compare(cases, iv, mv, None, nontrivial, family=family + " (vs model)")
+    ck.evaluations = n0
 
 
 RULE = ("exhaustive: every session over {open, load_context, start_streaming(3), stop_streaming, close, params access} "
         "up to depth %d, failure-free and with every single failure point (each DeviceControl / PayloadStream operation the "
-        "failure-free run attempts, found by running the real code)%s; plus start_streaming(0) / (1), the 28 description "
+        "failure-free run attempts, found by running the real code) x fault class: all 8 classes (Io, Timeout, Disconnected, "
+        "Busy, NotOpened, InvalidData, InvalidDevice, BufferTooSmall / the StreamError counterparts) at every failure point of "
+        "the sessions up to depth %d, one rotating class per point above%s; plus start_streaming(0) / (1), the 28 description "
         "variants (each of TLParamsLocked / AcquisitionStart / AcquisitionStop good / missing / wrong interface, unparsable "
-        "text) and seeded random sessions of length 3..14 with 0..5 simultaneous failures; real Camera<FakeCtrl, FakeStrm, "
-        "DefaultGenApiCtxt> vs Gallina model (vm_compute): per-call result class, failed operation, operations attempted, "
-        "effect trace, value read, state after every call (streaming flag, context, register cache, device state); "
-        "independent Python predicate = the acquisition protocol replayed over the implementation's effect trace; "
+        "text) and seeded random sessions of length 3..14 with 0..5 simultaneous failures of random classes; real "
+        "Camera<FakeCtrl, FakeStrm, DefaultGenApiCtxt> vs Gallina model (vm_compute): per-call result (carrying the fault "
+        "class), failed operation, device log (every operation attempted, in order), effect trace, value read, state after "
+        "every call (streaming flag, context, register cache, device state); "
+        "independent Python predicate = the acquisition protocol replayed over the implementation's effect trace + error of "
+        "the failed operation with the injected class + every access attempted once + nothing after the failed attempt; "
         "end-to-end: failure-free sessions open . {load, start, stop, params, open}^<=%d . close (and re-open tails) on the real "
         "Camera<ControlHandle, StreamHandle> over the scripted U3V device of rust/shim (real manifest / XML fetch, SIRM "
         "programming, streaming-loop thread): result classes, protocol-relevant device-memory writes, value read, streaming flag, "
-        "SI_CONTROL / TLParamsLocked in device memory vs the same model; non-trivial = a receive loop is started")
+        "SI_CONTROL / TLParamsLocked in device memory vs the same model; and the same sessions with ONE disturbed control "
+        "transaction at every GenApi-driven access (TLParamsLocked / AcquisitionStart / AcquisitionStop write, TLParamsLocked "
+        "read) x {command lost, acknowledge lost, receive error Timeout / Io / NoDevice / Busy}: the call must fail with that "
+        "class, the wire log must show one command for the access and nothing after it; non-trivial = a receive loop is started")
 
 
 def main():
     ck = Check("C16")
     quick = ck.tier == "quick"
     depth = 5 if quick else 6
-    ck.rule = RULE % (depth, "" if quick else "; a seeded sample of depth-7 sessions, failure-free and with sampled failure points",
+    ck.rule = RULE % (depth, 4 if quick else 5,
+                      "" if quick else "; a seeded sample of depth-7 sessions, failure-free and with sampled failure points",
                       3 if quick else 5)
     ck.trusted += [
-        "rust/h_camera: the recording fakes (FakeCtrl / FakeStrm: a planned failure has no effect; the loop is a flag, no thread), "
+        "rust/h_camera: the recording fakes (FakeCtrl / FakeStrm: a planned failure of a chosen fault class has no effect; every "
+        "invocation of a fake method is logged as an attempt; the loop is a flag, no thread), "
         "the GenApi descriptions it serves, its classification of CameleonError",
-        "camera.rs is exercised over the fakes (all failure plans) and, failure-free, over the real ControlHandle / StreamHandle on the "
-        "scripted device of rust/shim (rust/h_u3v cam16); the handles themselves are the subject of C06, C07, C12, C15",
+        "camera.rs + genapi/mod.rs (GenApiDevice) are exercised over the fakes (all failure plans) and over the real ControlHandle / "
+        "StreamHandle on the scripted device of rust/shim (rust/h_u3v cam16: failure-free, and with one disturbed control "
+        "transaction at a GenApi-driven access); the handles themselves are the subject of C06, C07, C12, C15",
     ]
     ck.prove()
     ck.phase("prove")
@@ -418,15 +555,29 @@ def main():
             sys.exit(0)
         if r.get("ckind") == "cam16":
             wt = e2e_world_tokens()
-            calls = [int(x) for x in r["case"].split()[1:][len(wt) + 6:]]
-            c = mk_e2e(wt, calls)
+            t = [int(x) for x in r["case"].split()[1:][len(wt) + 5:]]
+            calls = t[1:1 + t[0]]
+            nf = t[1 + t[0]] if len(t) > 1 + t[0] else 0
+            faults = [tuple(t[2 + t[0] + 3 * i:5 + t[0] + 3 * i]) for i in range(nf)]
             ubin, ulog = ck.cargo_build("h_u3v")
             if ubin is None:
                 print("rust/h_u3v does not build:\n" + ulog[-2000:])
                 sys.exit(2)
-            impl = ck.run_impl(ubin, [c.line])
-            model = [e2e_view(m, len(calls)) for m in ck.run_model_terms(["Camera"], [c.term])]
-            cases = [c]
+            c0 = mk_e2e(wt, calls)
+            o0 = ck.run_impl(ubin, [c0.line])
+            m0 = ck.run_model_terms(["Camera"], [c0.term])
+            cases = [c0]
+            if faults:
+                cases = [c for c in e2e_fault_cases(wt, [(c0, o0[0], m0[0])]) if c.meta["faults"] == faults]
+            impl = ck.run_impl(ubin, [c.line for c in cases])
+            model = ck.run_model_terms(["Camera"], [c.term for c in cases])
+            for c, o, m in zip(cases, impl, model):
+                print("calls    :", c.meta["calls"], "faults (call, transaction, kind):", c.meta["faults"])
+                print("impl     :", o)
+                print("model    :", m)
+                print("predicate:", predicate(c, o) or "holds")
+            e2e_compare(ck, cases, impl, model, "replay")
+            ck.finish()
         else:
             cases = [case_from_line(r["case"])]
             impl = ck.run_impl(binary, [c.line for c in cases])
@@ -441,6 +592,9 @@ def main():
     # Sessions are kept as (calls, plan) pairs and turned into cases batch by batch: the thorough tier has
     # several 10^5 cases and must stay small in memory.
     kinds = {}
+    JOBS = min(vplib.NPROC, 16)
+    all_depth = 4 if quick else 5      # sessions up to this depth: every fault class at every failure point
+    rng7 = Rng(ck.seed + 7)
 
     def split_family(flat):
         outs, cur = [], []
@@ -452,29 +606,43 @@ def main():
                 cur.append(x)
         return outs
 
+    def salt_of(calls):
+        return len(calls) + sum(calls)
+
+    def classes_for(calls, ci, oi, allc):
+        return list(range(NCLASS)) if allc else [(salt_of(calls) + ci + oi) % NCLASS]
+
     def families(sessions, family, keep=None):
-        """Each session failure-free and with every single failure point.  Implementation: the failure
-        points are the operations the failure-free run of the real code attempts (counted by the fakes).
-        Model: ONE term per session (cam_family) that enumerates the failure points from the model's own
-        operation counts; the two enumerations must agree (a different count is a disagreement)."""
+        """Each session failure-free and with every single failure point x fault class.  Sessions up to depth
+        `all_depth` get EVERY fault class at every failure point, deeper ones one class per point (rotating with
+        the session and the point).  Implementation: the failure points are the operations the failure-free run
+        of the real code attempts (counted by the fakes).  Model: ONE term per session (cam_family) that
+        enumerates the failure points from the model's own operation counts and the same classes; the two
+        enumerations must agree (a different count is a disagreement)."""
         nfail = 0
-        for i in range(0, len(sessions), 8000):
-            part = sessions[i:i + 8000]
+        for i in range(0, len(sessions), 4000):
+            part = sessions[i:i + 4000]
             base_cases = [mk(s) for s in part]
-            base_out = ck.run_impl(binary, [c.line for c in base_cases], jobs=8)
+            base_out = ck.run_impl(binary, [c.line for c in base_cases], jobs=JOBS)
             per_session = []
             for calls, c0, o in zip(part, base_cases, base_out):
                 cs = [c0]
                 rs = parse(o, len(calls)) if o else None
+                allc = len(calls) <= all_depth
                 for ci, r in enumerate(rs or []):
-                    cs.extend(mk(calls, [(ci, oi)]) for oi in range(r["nops"]))
-                if keep is not None:
-                    cs = [cs[0]] + [c for c in cs[1:] if keep()]
+                    for oi in range(r["nops"]):
+                        if keep is not None:
+                            if keep():
+                                cs.append(mk(calls, [(ci, oi, rng7.below(NCLASS))]))
+                        else:
+                            cs.extend(mk(calls, [(ci, oi, k)]) for k in classes_for(calls, ci, oi, allc))
                 per_session.append(cs)
             flat_cases = [c for cs in per_session for c in cs[1:]]
-            flat_impl = ck.run_impl(binary, [c.line for c in flat_cases], jobs=16)
+            flat_impl = ck.run_impl(binary, [c.line for c in flat_cases], jobs=JOBS)
             if keep is None:
-                fam = ck.run_model_terms(["Camera"], ["cam_family true %s" % zlist(s) for s in part], per_eval=100)
+                fam = ck.run_model_terms(["Camera"], ["cam_family true %s %s" % (
+                    zlist(s), "all_classes" if len(s) <= all_depth else "(one_class %d)" % salt_of(s)) for s in part],
+                    per_eval=100)
             cases, impl, model, k = [], [], [], 0
             for j, cs in enumerate(per_session):
                 outs = [base_out[j]] + flat_impl[k:k + len(cs) - 1]
@@ -510,7 +678,7 @@ def main():
                 if c.line not in seen:
                     seen.add(c.line)
                     cases.append(c)
-            impl = ck.run_impl(binary, [c.line for c in cases], jobs=16)
+            impl = ck.run_impl(binary, [c.line for c in cases], jobs=JOBS)
             model = ck.run_model_terms(["Camera"], [c.term for c in cases], per_eval=400)
             ck.compare(cases, impl, model, predicate, nontrivial, family=family)
             count_kinds(cases, impl)
@@ -518,11 +686,12 @@ def main():
     base = sequences(depth)
     ck.dist["exhaustive_sessions"] = len(base)
     ck.phase("generate")
-    ck.dist["exhaustive_single_failure_cases"] = families(base, "exhaustive depth<=%d x single failure" % depth)
+    ck.dist["exhaustive_single_failure_cases"] = families(base, "exhaustive depth<=%d x single failure x fault class" % depth)
+    ck.dist["every_fault_class_up_to_depth"] = all_depth
     ck.phase("exhaustive")
     other = []
     if not quick:
-        rng = Rng(ck.seed + 7)
+        rng = rng7
         d7 = sequences(7)[len(base):]
         deep = [d7[i] for i in sorted({rng.below(len(d7)) for _ in range(70000)})]
         del d7
@@ -544,11 +713,17 @@ def main():
     else:
         wt = e2e_world_tokens()
         ecases = [mk_e2e(wt, s) for s in e2e_sessions(3 if quick else 5)]
-        eimpl = ck.run_impl(ubin, [c.line for c in ecases], jobs=8, timeout=60 if quick else 240)
+        eimpl = ck.run_impl(ubin, [c.line for c in ecases], jobs=min(JOBS, 8), timeout=60 if quick else 240)
         emodel = ck.run_model_terms(["Camera"], [c.term for c in ecases], per_eval=400)
-        eview = [e2e_view(m, len(c.meta["calls"])) for c, m in zip(ecases, emodel)]
-        ck.compare(ecases, eimpl, eview, predicate, nontrivial,
-                   family="end-to-end Camera<ControlHandle, StreamHandle> over the scripted device")
+        e2e_compare(ck, ecases, eimpl, emodel, "end-to-end Camera<ControlHandle, StreamHandle> over the scripted device")
+        # a disturbed transaction (lost command, lost acknowledge, receive error) at every GenApi-driven access
+        fdepth = 3 if quick else 4
+        fcases = e2e_fault_cases(wt, [(c, o, m) for c, o, m in zip(ecases, eimpl, emodel)
+                                      if len(c.meta["calls"]) <= fdepth + 2])
+        fimpl = ck.run_impl(ubin, [c.line for c in fcases], jobs=min(JOBS, 8), timeout=60 if quick else 240)
+        fmodel = ck.run_model_terms(["Camera"], [c.term for c in fcases], per_eval=400)
+        e2e_compare(ck, fcases, fimpl, fmodel, "end-to-end, one disturbed transaction at a GenApi-driven access")
+        ck.dist["end_to_end_fault_cases"] = len(fcases)
         ck.phase("end-to-end")
     ck.dist["call_results_by_class"] = kinds
     ck.exhaustive = False   # the theorems are for unbounded sessions; the correspondence enumerates depth <= depth only
